@@ -107,7 +107,7 @@ C13 = {
 }
 
 CHECKS = {
-    **{p: (corecheck.run, corecheck.replay) for p in corecheck.CORE_PROPS if p != "C11"},
+    **{p: (corecheck.run, corecheck.replay) for p in corecheck.CORE_PROPS},
     "C13": (lambda pid, tier: helpers.run(pid, tier, C13), lambda pid, path: helpers.replay(pid, C13, path)),
     "C05": (lambda pid, tier: helpers.run(pid, tier, C05), lambda pid, path: helpers.replay(pid, C05, path)),
     "C18": (lambda pid, tier: helpers.run(pid, tier, C18), lambda pid, path: helpers.replay(pid, C18, path)),
